@@ -26,7 +26,7 @@ structure RCfg where
 
 structure RR where
   phase : Phase := .top
-  offset : Int                 -- `offset`: FirstOffset (-1) / LastOffset (-2) / absolute
+  offset : Int                 -- `offset`: LastOffset (-1) / FirstOffset (-2) / absolute
   attempt : Nat := 0
   errcount : Nat := 0
   slept : Bool := false        -- the backoff sleep of the current iteration is over
@@ -61,7 +61,7 @@ inductive REv
 
 /-- offset the connection is seeked to by `initialize` -/
 def resolve (offset first last : Int) : Int :=
-  if offset = -1 then first else if offset = -2 then last else if offset < first then first else offset
+  if offset = -2 then first else if offset = -1 then last else if offset < first then first else offset
 
 def pushMsgs (s : RR) (d : List Rec) : RR :=
   { s with msgs := s.msgs ++ d, offset := match d.getLast? with | some r => r.1 + 1 | none => s.offset }
